@@ -210,6 +210,14 @@ Theorem zip_ascend_prefix : forall puts p,
 Proof. exact zip_history_ascend_prefix. Qed.
 Print Assumptions zip_ascend_prefix.
 
+(* the iterator is a function of the tree alone (no state between ranges of the same iter.Seq): every pass, complete or
+   stopped after n items, over the tree reached by any history is a prefix of the same filtered sorted listing *)
+Theorem zip_iterator_stateless : forall puts p (ns : list nat),
+  map (fun n => firstn n (ascend_prefix p (fold_left zput puts Leaf))) ns =
+  map (fun n => firstn n (filter (fun kv => is_prefix p (fst kv)) (fold_left rput puts []))) ns.
+Proof. exact zip_history_passes. Qed.
+Print Assumptions zip_iterator_stateless.
+
 Theorem zip_iteration_sorted_no_duplicates : forall puts,
   StronglySorted (fun a b => bcmp (fst a) (fst b) = Lt) (fold_left rput puts []).
 Proof. exact zip_history_sorted. Qed.
